@@ -124,7 +124,7 @@ def add_dynamic(rng, case, tags):
                             'unjudged': True}
             elif step in ('add', 'add+'):
                 ctxs = copy.deepcopy(rng.choice(EXTRAS[2:])) if step == 'add+' else []
-                call = {'tag': tags[0], 'kind': 'dyn_add', 'args': [j, ctxs], 'script': {}}
+                call = {'tag': tags[0], 'kind': 'dyn_add', 'args': [j, ctxs, rng.choice([0, 0, 1, 2])], 'script': {}}
                 registered = True
             else:
                 call = {'tag': tags[0], 'kind': 'dyn_remove', 'args': [j], 'script': {}}
@@ -420,6 +420,19 @@ CORPUS += [
 ]
 
 
+CORPUS += [
+    # add_model with a MIXED list: registered models first, then the (removed) dynamic model, with a model_context; the
+    # event that follows on the new model must hold the machine contexts and that context
+    {'cls': 'flat', 'base': [], 'nmodels': 1, 'ignore': False, 'queued': False, 'extras': {'0': [['user', 5]]}, 'dyn': [[]],
+     'threads': [[_c(1, 'dyn_remove', [0]), _c(2, 'dyn_add', [0, [['user', 8]], 1]), _c(3, 'dyn_ev', [0, 'to_B'])],
+                 [_c(4, 'ev', [0, 'go'])]]},
+    {'cls': 'hsm', 'base': [['lock', 1]], 'nmodels': 1, 'ignore': False, 'queued': False, 'extras': {'0': []}, 'dyn': [[['user', 5]]],
+     'restored': 'deepcopy',
+     'threads': [[_c(1, 'dyn_remove', [0]), _c(2, 'dyn_add', [0, [['lock', 6]], 2]), _c(3, 'dyn_ev', [0, 'to_C'])],
+                 [_c(4, 'trig', [0, 'go'])]]},
+]
+
+
 def corpus_worker(seed, per):
     _alarm(900)
     rng = random.Random(seed)
@@ -612,7 +625,7 @@ class C06(runner.Check):
             'and by name (model.trigger(name)); (default and user supplied '
             'machine_context lists containing a mutex, model_context lists, 1-3 shared models): 2-4 threads x 1-3 calls '
             '(events by attribute and by model.trigger, machine.dispatch, get_state, add_transition, add_states, set_state, remove_model, add_model incl. '
-            're-adding a removed model with and without model_context, events on a currently unregistered model as unjudged steps, re-entrant '
+            're-adding a removed model with and without model_context also inside a mixed list after registered models, events on a currently unregistered model as unjudged steps, re-entrant '
             'calls from callbacks two levels deep, callbacks raising an Exception subclass / a custom BaseException / a KeyboardInterrupt subclass, callbacks that pickle / deep-copy the machine or a model mid-event), run under a deterministic controller; schedules: '
             'every schedule with at most 2 (thorough: 3) preemptions of 2-thread x <=2-call programs, and random '
             'schedules (switch probability 0.15-1.0) of the larger ones; non-trivial = contention observed (a thread '
